@@ -1,4 +1,5 @@
 import Tickit.Proof.WinFocusHist
+import Tickit.Proof.WinFocusResize
 /-
   C15 over histories, part 5: queued restacking requests applied by the flush.
 -/
@@ -382,6 +383,8 @@ inductive Op where
   | move (win : Nat) (rect : Rect)
   | exposeW (win : Nat) (rect : Option Rect)
   | flush
+  /-- the terminal's resize event (`tickit_term_set_size` with a new size): `on_term_resize` -/
+  | termResize (lines cols : Int)
 
 /-- Tree and terminal cursor. -/
 structure HSt where
@@ -410,6 +413,7 @@ def stepOp (fx : Fixes) (s : HSt) : Op → Res HSt
   | .flush => do
     let o ← WinFocus.flush fx s.tree
     pure { tree := o.tree, term := s.term.applyAll o.calls }
+  | .termResize l c => do let t ← termResize fx s.tree l c; pure { s with tree := t }
 
 def runOps (fx : Fixes) (s : HSt) : List Op → Res HSt
   | [] => pure s
@@ -422,7 +426,13 @@ def runOps (fx : Fixes) (s : HSt) : List Op → Res HSt
 def Op.plain : Op → Prop
   | .restack ch _ => ch.isRestack = true
   | .move w _ => w ≠ 0
+  | .termResize _ _ => False
   | _ => True
+
+/-- … and those that also let the terminal change its size (to at least one cell). -/
+def Op.plainR : Op → Prop
+  | .termResize l c => 0 < l ∧ 0 < c
+  | op => op.plain
 
 /-- The invariant of a history: the store and the flags are in order, the queue holds restacking requests only, and the
     terminal cursor is what the property says — or something is pending that will make the next flush re-establish it. -/
@@ -622,6 +632,7 @@ theorem plain_step {fx : Fixes} (hfx1 : fx.hiddenRoot = true) (hfx2 : fx.chainRe
       · rintro ⟨h1, h2⟩
         exact ⟨h1, by show (s.tree.root.needsLater || _) = true; rw [h2]; rfl⟩
   | flush => exact (flush_step hfx1 hi hs).1
+  | termResize l c => exact absurd hop id
   | newWin p r a b c d =>
     simp only [stepOp, bind_ok, pure_ok] at hs
     obtain ⟨x, hx, hs⟩ := hs; subst hs
@@ -728,6 +739,33 @@ theorem runOps_inv {fx : Fixes} (hfx1 : fx.hiddenRoot = true) (hfx2 : fx.chainRe
     obtain ⟨s1, h1, h2⟩ := h
     exact ih s1 s' (fun o ho => hp o (by simp [ho])) (plain_step hfx1 hfx2 (hp op (by simp)) hi h1) h2
 
+/-- The same with terminal resizes, for a source that also carries the repair `resizeRestore`. -/
+theorem plainR_step {fx : Fixes} (hfx1 : fx.hiddenRoot = true) (hfx2 : fx.chainRestore = true)
+    (hfx3 : fx.resizeRestore = true) {s s' : HSt} {op : Op}
+    (hop : op.plainR) (hi : HInv s) (hs : stepOp fx s op = .ok s') : HInv s' := by
+  by_cases hr : ∃ l c, op = .termResize l c
+  · obtain ⟨l, c, rfl⟩ := hr
+    have hlc : 0 < l ∧ 0 < c := hop
+    simp only [stepOp, bind_ok, pure_ok] at hs
+    obtain ⟨x, hx, hs⟩ := hs; subst hs
+    exact hinv_of_step hi (termResize_good hi.good hlc.1 hlc.2 hx) (termResize_keeps hi.good hlc.1 hlc.2 hx)
+      (.inl (termResize_pending hfx3 hi.good hlc.1 hlc.2 hx))
+  · have hp : op.plain := by
+      cases op <;> first | exact hop | exact absurd ⟨_, _, rfl⟩ hr
+    exact plain_step hfx1 hfx2 hp hi hs
+
+theorem runOps_invR {fx : Fixes} (hfx1 : fx.hiddenRoot = true) (hfx2 : fx.chainRestore = true)
+    (hfx3 : fx.resizeRestore = true) :
+    ∀ (ops : List Op) (s s' : HSt), (∀ op ∈ ops, op.plainR) → HInv s → runOps fx s ops = .ok s' → HInv s' := by
+  intro ops
+  induction ops with
+  | nil => intro s s' _ hi h; simp only [runOps, pure_ok] at h; subst h; exact hi
+  | cons op rest ih =>
+    intro s s' hp hi h
+    simp only [runOps, bind_ok] at h
+    obtain ⟨s1, h1, h2⟩ := h
+    exact ih s1 s' (fun o ho => hp o (by simp [ho])) (plainR_step hfx1 hfx2 hfx3 (hp op (by simp)) hi h1) h2
+
 theorem runOps_append (fx : Fixes) : ∀ (a b : List Op) (s s' : HSt), runOps fx s (a ++ b) = .ok s' →
     ∃ s1, runOps fx s a = .ok s1 ∧ runOps fx s1 b = .ok s' := by
   intro a
@@ -782,6 +820,20 @@ theorem history_cursor {fx : Fixes} (hfx1 : fx.hiddenRoot = true) (hfx2 : fx.cha
     s.term.matches (cursorSpec s.tree) = true := by
   obtain ⟨s1, h1, h2⟩ := runOps_append fx ops [.flush] _ s h
   have hi1 := runOps_inv hfx1 hfx2 ops _ s1 hplain (hinv_newRoot l c hl hc) h1
+  simp only [runOps, bind_ok, pure_ok] at h2
+  obtain ⟨s2, h2, h3⟩ := h2
+  subst h3
+  exact (flush_step hfx1 hi1 h2).2
+
+/-- **C15 over histories with terminal resizes** (source with all three repairs): the same, for histories in which the
+    terminal also changes its size, any number of times, to any size of at least one cell. -/
+theorem history_cursor_resize {fx : Fixes} (hfx1 : fx.hiddenRoot = true) (hfx2 : fx.chainRestore = true)
+    (hfx3 : fx.resizeRestore = true)
+    (l c : Int) (hl : 0 < l) (hc : 0 < c) (ops : List Op) (hplain : ∀ op ∈ ops, op.plainR) (s : HSt)
+    (h : runOps fx { tree := newRoot l c } (ops ++ [.flush]) = .ok s) :
+    s.term.matches (cursorSpec s.tree) = true := by
+  obtain ⟨s1, h1, h2⟩ := runOps_append fx ops [.flush] _ s h
+  have hi1 := runOps_invR hfx1 hfx2 hfx3 ops _ s1 hplain (hinv_newRoot l c hl hc) h1
   simp only [runOps, bind_ok, pure_ok] at h2
   obtain ⟨s2, h2, h3⟩ := h2
   subst h3
